@@ -225,6 +225,10 @@ def r11_4(ctx):
 
 
 def run(ctx):
+    # the limiter is fed the statuses the reaper recorded, all of them and as they are (borrowed from C10)
+    from .c10 import r10_4 as _r10_4
+    from ..report import Only as _Only11
+    _r10_4(_Only11(ctx, ('reaper:returns-every-recorded-status',), floor=1, doc='the reaper returns the exit status of every worker it reaped, unaltered'))
     r11_1(ctx)
     r11_2(ctx)
     r11_3(ctx)
